@@ -23,11 +23,14 @@ pub fn dispatch(cmd: &str, args: &Args) -> Option<i32> {
 }
 
 /// Names in the numbering of specs/TexVM.tla (PrimNames, then the eight user names).
-pub const NAMES: [&str; 33] = [
+pub const NAMES: [&str; 35] = [
     "def", "gdef", "global", "let", "count", "countdef", "chardef", "advance", "multiply", "divide", "the", "relax",
     "expandafter", "noexpand", "iftrue", "iffalse", "ifnum", "ifodd", "ifcase", "or", "else", "fi", "globaldefs",
-    "long", "outer", "va", "vb", "vc", "vd", "ve", "vf", "vg", "vh",
+    "long", "outer", "va", "vb", "vc", "vd", "ve", "vf", "vg", "vh", "~~", "~!",
 ];
+/// The last two names are the active characters ~ and ! (the prelude gives them category 13); vmh reports
+/// an active character c as "~c".
+const FIRST_ACTIVE: usize = 34;
 const FIRST_USER: usize = 26;
 
 fn id(name: &str) -> i64 {
@@ -88,6 +91,7 @@ pub fn render(toks: &[T]) -> Option<String> {
     let mut prev: Option<&T> = None;
     for t in toks {
         match t {
+            T::Cs(v) if *v as usize >= FIRST_ACTIVE => s.push_str(&NAMES[(*v - 1) as usize][1..]),
             T::Cs(v) => {
                 s.push('\\');
                 s.push_str(NAMES[(*v - 1) as usize]);
@@ -96,7 +100,8 @@ pub fn render(toks: &[T]) -> Option<String> {
             T::Ch(c) => s.push(*c as char),
             T::Sp => {
                 match prev {
-                    None | Some(T::Sp) | Some(T::Cs(_)) => return None,
+                    None | Some(T::Sp) => return None,
+                    Some(T::Cs(v)) if (*v as usize) < FIRST_ACTIVE => return None,
                     _ => {}
                 }
                 s.push(' ');
@@ -141,6 +146,7 @@ struct G<'a> {
     case_alias: Option<i64>, // a user name \let to \ifcase
     or_alias: Option<i64>,   // a user name \let to \or
     profile: usize,          // index into PROFILES
+    active: [bool; 2],       // user names 0 / 1 are written as the active characters ~ / !
 }
 
 /// Statement mixes.  Columns: chars, group, def, call, assignment, countdef, chardef, the, conditional,
@@ -153,14 +159,19 @@ const PROFILES: [[u32; 14]; 4] = [
 ];
 
 const LETTERS: &[u8] = b"abcxyz";
-const PUNCT: &[u8] = b".,;!?";
+const PUNCT: &[u8] = b".,;:?";
 
 impl G<'_> {
     fn cs(&self, n: &str) -> T {
         T::Cs(id(n))
     }
+    /// the i-th user name: a control sequence, or (for this whole program) an active character
     fn user(&self, i: usize) -> T {
-        T::Cs((FIRST_USER + i) as i64)
+        if i < 2 && self.active[i] {
+            T::Cs((FIRST_ACTIVE + i) as i64)
+        } else {
+            T::Cs((FIRST_USER + i) as i64)
+        }
     }
     fn chars(&mut self, out: &mut Vec<T>) {
         for _ in 0..1 + self.rng.below(3) {
@@ -322,7 +333,7 @@ impl G<'_> {
                 2 => (vec![], vec![d(b','), d(b','), d(b'.')]),
                 _ => (vec![], vec![vec![T::Ch(b'.'), T::Sp], vec![T::Cs(id("relax"))]]),
             },
-            _ => (d(b'!'), vec![vec![T::Ch(b'.'), T::Ch(b'.')]]),
+            _ => (d(b':'), vec![vec![T::Ch(b'.'), T::Ch(b'.')]]),
         };
         let mut text = pre.clone();
         for (i, dl) in delims.iter().enumerate() {
@@ -631,7 +642,9 @@ pub fn gen_program(rng: &mut Rng) -> Vec<T> {
         case_alias: None,
         or_alias: None,
         profile,
+        active: [false, false],
     };
+    g.active = [g.rng.chance(1, 4), g.rng.chance(1, 4)];
     if profile == 3 && g.rng.chance(1, 3) {
         out.extend([g.cs("let"), g.user(4), g.cs("ifcase"), g.cs("let"), g.user(3), T::Ch(b'='), g.cs("or")]);
         g.guess[4] = Guess::Alias;
@@ -641,14 +654,25 @@ pub fn gen_program(rng: &mut Rng) -> Vec<T> {
     }
     // aliases of the conditional primitives (their *meaning* is what skipping must look at)
     if g.rng.chance(1, 4) {
-        out.extend([g.cs("let"), g.user(7), g.cs("fi")]);
-        g.guess[7] = Guess::Alias;
-        g.fi_alias = Some((FIRST_USER + 7) as i64);
+        // the alias of \fi is a control sequence or, if ! is free, the active character !
+        if !g.active[1] && g.rng.chance(1, 2) {
+            out.extend([g.cs("let"), T::Cs((FIRST_ACTIVE + 1) as i64), g.cs("fi")]);
+            g.fi_alias = Some((FIRST_ACTIVE + 1) as i64);
+        } else {
+            out.extend([g.cs("let"), g.user(7), g.cs("fi")]);
+            g.guess[7] = Guess::Alias;
+            g.fi_alias = Some((FIRST_USER + 7) as i64);
+        }
     }
     if g.rng.chance(1, 6) {
-        out.extend([g.cs("let"), g.user(6), T::Ch(b'='), g.cs("iftrue")]);
-        g.guess[6] = Guess::Alias;
-        g.if_alias = Some((FIRST_USER + 6) as i64);
+        if !g.active[0] && g.rng.chance(1, 2) {
+            out.extend([g.cs("let"), T::Cs(FIRST_ACTIVE as i64), T::Ch(b'='), g.cs("iftrue")]);
+            g.if_alias = Some(FIRST_ACTIVE as i64);
+        } else {
+            out.extend([g.cs("let"), g.user(6), T::Ch(b'='), g.cs("iftrue")]);
+            g.guess[6] = Guess::Alias;
+            g.if_alias = Some((FIRST_USER + 6) as i64);
+        }
     }
     if g.rng.chance(1, 6) {
         out.extend([g.cs("let"), g.user(5), g.cs("else")]);
@@ -700,7 +724,7 @@ fn out_codes(toks: &[vmh::Tok]) -> Vec<i64> {
 
 pub fn run_event(toks: &[T], src: &str) -> Value {
     let mut vm = vmh::new_vm(&[], &[]);
-    let _ = vmh::run_src::<vmh::HStrict>(&mut vm, "prelude.tex", "\\endlinechar=-1 ", 10_000);
+    let _ = vmh::run_src::<vmh::HStrict>(&mut vm, "prelude.tex", "\\catcode`\\~=13 \\catcode`\\!=13 \\endlinechar=-1 ", 10_000);
     let r = vmh::run_src::<vmh::HStrict>(&mut vm, "prog.tex", src, 200_000);
     let errat = vmh::first_err_at();
     let (fatal, budget, panic) = match &r.outcome {
